@@ -24,5 +24,5 @@ if a.add_prefix:
     json.dump(kf, open(os.path.join(V, "known_findings.json"), "w"), indent=1)
     print("added %d findings" % n)
 else:
-    for k, v in sorted(keys.items())[:60]: print(("known " if v["known"] else "NEW   ") + k)
+    for k, v in sorted(keys.items(), key=lambda kv: kv[1]["known"])[:60]: print(("known " if v["known"] else "NEW   ") + k + ("" if v["known"] else "\n        " + v["what"][:600]))
 shutil.rmtree(d)
